@@ -148,7 +148,20 @@ def gen_xsd(src):
         exp = src.int(-60, 30)
         text = dec.plain((sign, coeff, exp))
     else:
-        text = dec.sci((sign, coeff, exp)) if src.bool(0.7) else dec.plain((sign, coeff, src.int(-30, 30)))
+        how = src.weighted([(5, "sci"), (2, "plain"), (2, "coeff-zeros"), (1, "coeff-shift")])
+        if how == "sci":
+            text = dec.sci((sign, coeff, exp))
+        elif how == "plain":
+            text = dec.plain((sign, coeff, src.int(-30, 30)))
+        elif how == "coeff-zeros":
+            # the same number written with k more zeros at the end of the coefficient and an exponent k lower: the written exponent may
+            # lie below the smallest exponent of the format (10E-6177 is 1E-6176) although the value is one of the format's
+            k = src.int(1, 40)
+            text = "%s%s%sE%d" % (sign, coeff, "0" * k, exp - k)
+        else:
+            # ... and with the point moved to the front of the coefficient (0.00123E+5): the written exponent may lie above the largest
+            k = src.int(0, 5)
+            text = "%s0.%s%sE%s%d" % (sign, "0" * k, coeff, src.choice(["+", ""]) if exp + k + len(coeff) >= 0 else "", exp + k + len(coeff))
     # other valid lexical forms of the same value (XML Schema part 2): a leading plus sign, leading zeros, `.5` / `5.` for decimals and
     # doubles, and for doubles the exponent marker in either case with or without a plus sign
     if src.bool(0.4):
